@@ -24,7 +24,7 @@ RULE = ("Client-side history of two events per case: s = encode(m, G, v, mode, t
         "uint8/list; tables none/random/constant; check lengths 0,1,2,5,33 and random 1..70. A case is non-trivial when the message is "
         "non-empty and (the graph has >= 2 distinct out-degrees, or a table, or a check is used); distinct = distinct "
         "canonical hash of (graph, start, message, mode, table, check length, dtype)."
-        ' Also: messages beyond 2100 bits under the int<->str trap, buffer twins (uint8 bytes of a short int64 message), decimal-round values d*10^e, accessors in Fortran / strided layout, widths as numpy int64/uint16/uint64, start vertices as numpy.int64, need_path / verbose on, and edit sequences in which one accessor object and one table object are reused while the accessor is overwritten in place between round trips.')
+        ' Also: messages beyond 2100 bits under the int<->str trap, buffer twins (uint8 bytes of a short int64 message), decimal-round values d*10^e, accessors in Fortran / strided layout and with int32 / int16 entries, widths as numpy int64/uint16/uint64, start vertices as numpy.int64, need_path / verbose on, and edit sequences in which one accessor object and one table object are reused while the accessor is overwritten in place between round trips.')
 ASSUMPTIONS = ["message element types limited to int64/int32/int8/uint8 arrays and Python int lists (numpy bool arrays "
                "are not a supported message type)"]
 
@@ -68,7 +68,7 @@ def generate(ctx):
             for _ in range(per_start):
                 bits, mclass = gens.message(rng, max_len if rng.random() < 0.92 else ctx.pick(400, 2048) if rng.random() < 0.3 else ctx.pick(160, 700))
                 yield "roundtrip", dict(gcase, start=int(start), bits=bits, fast=fast, table=rand_table_spec(rng),
-                                        layout=rng.choice([None] * 8 + ["F", "strided"]),
+                                        layout=rng.choice([None] * 8 + ["F", "strided", "i32", "i16"]),
                                         wtype=rng.choice(["int"] * 6 + ["int64", "uint16", "uint64"]),
                                         path=rng.random() < 0.1, verbose=rng.random() < 0.05, npstart=rng.random() < 0.5,
                                         vt=rng.choice(VTS) if rng.random() < 0.7 else rng.randint(1, 70), dtype=rng.choice(DTYPES), mclass=mclass, fam=fam)
@@ -162,13 +162,8 @@ def check_roundtrip(ctx, case, acc_obj=None, name="roundtrip", shuf_obj=None):
     if acc_obj is not None:
         f_acc = acc_obj
         f_shuf = shuf_obj             # the same (writable) table object through the whole sequence
-    elif case.get("layout") == "F":
-        f_acc = np.asfortranarray(acc)      # same values, column-major memory layout
-        f_acc.flags.writeable = False
-    elif case.get("layout") == "strided":
-        wide = np.full((acc.shape[0], 8), -1, dtype=acc.dtype)
-        wide[:, ::2] = acc
-        f_acc = wide[:, ::2]                # a non-contiguous view of a wider table
+    elif case.get("layout"):
+        f_acc = gens.as_layout(acc, case["layout"])     # same values: column-major / strided memory, int32 / int16 entries
         f_acc.flags.writeable = False
     width = {"int": int, "int64": np.int64, "uint16": np.uint16, "uint64": np.uint64}[case.get("wtype", "int")](len(bits))
     guard = ArgGuard(message=f_msg, accessor=f_acc, shuffles=f_shuf)
@@ -253,7 +248,7 @@ def floors(agg, tier):
                     if agg["classes"].get(name, 0) < need:
                         out.append("%s observed %d < %d" % (name, agg["classes"].get(name, 0), need))
     for name, need2 in (("edit sequences (same accessor object overwritten in place)", 100), ("msg|long", 8), ("msg|twin", 20),
-                        ("msg|dec-round", 100), ("accessor layout|F", 100), ("width type|uint16", 100)):
+                        ("msg|dec-round", 100), ("accessor layout|F", 100), ("accessor layout|i16", 100), ("width type|uint16", 100)):
         if agg["classes"].get(name, 0) < need2:
             out.append("%s observed %d < %d" % (name, agg["classes"].get(name, 0), need2))
     for m in ("empty", "zeros", "leadzero", "odd"):
